@@ -12,6 +12,21 @@ T: the harness builds real `Graph` / `TaskGraph` / `JobGraph` objects for
    written as JSON batches and judged by TLC against the definitions
    (spec/DagTrace.tla, relational: any valid order / path is accepted).  Python
    never decides whether an answer is right; it only groups TLC's verdicts.
+
+The real object is treated as a state machine (spec/Dag.tla: EmptyG, AddNodeG,
+AddChildG, RemoveG).  A batch entry is a *session*: constructor mapping, mutator
+calls, and the queries with the version (number of mutator calls applied) they were
+asked on; DagTrace computes the machine state of every version and judges each query
+against the state at its version.  Three families of sessions:
+  * static: the object is built completely, then queried -- in a seeded shuffled
+    order with repeats, get_node_depth with func = default / min / max interleaved
+    (the answer may not depend on earlier queries on the same object);
+  * incremental: the graph is grown by add_node / add_child (children may be created
+    implicitly), shrunk by remove(parentless node) and partly re-grown, with queries
+    between the mutations, the previous version's queries asked again (stale caches);
+  * walks: DagMC's ObjSpec (the machine itself) is model-checked, its state graph is
+    dumped, and walks covering its transitions are replayed on real objects with
+    queries after every step (spec -> code).
 """
 from __future__ import annotations
 
@@ -27,6 +42,7 @@ from .common import CheckResult, Scratch, parallel, rng
 from .realobj import mk_job, mk_profile, mk_strategy, mk_task, ns
 
 BFMAX = 6  # graphs up to this size are judged with the brute-force definitions
+OBJ_INV = ["ObjTypeOK", "Obj_LastExplains", "Obj_CompactFaithful", "Obj_Mutators"]
 MC_INV = [
     "MCTypeOK",
     "MC_CycleDefsAgree",
@@ -39,7 +55,7 @@ MC_INV = [
     "MC_Traversals",
 ]
 JAVA_OPTS = mcgen.LIB_OPT + ["-Xmx3g", "-Xss256m", "-XX:ParallelGCThreads=2"]
-CALL_TIMEOUT_S = 20
+CALL_TIMEOUT_S = 20  # CPU seconds of the calling process (ITIMER_PROF): wall-clock limits are never verdicts
 
 
 # ---------------------------------------------------------------------------
@@ -154,6 +170,14 @@ def parts_for(tier):
             out.append((f"lab5/{k}", "lab5", (k, 24), 55))
         for k in range(96):
             out.append((f"ut6/{k}", "ut", (6, k, 96, 1), 45))
+    # incremental sessions: mutations interleaved with queries
+    out.append(("sess/lab<=3", "sess_lab", (1, 3, 0, 1), 3))
+    for k in range(2 if q else 6):
+        out.append((f"sess/lab4/{k}", "sess_lab", (4, 4, k, 6), 6))
+    for k in range(2 if q else 12):
+        out.append((f"sess/rand/{k}", "sess_rand", (k, 14 if q else 40), 6 if q else 16))
+    out.append(("sess/cyc<=3", "sess_cyc", (3, None), 3))
+    out.append(("sess/cyc4", "sess_cyc", (4, 60 if q else 600), 2 if q else 12))
     return out
 
 
@@ -253,8 +277,175 @@ def gen_builds(key, args, tier):
                 edges = add_cycle(r, n, edges)
             kinds = ("graph", "task") if j % 3 == 0 else ("graph",)
             yield build(n, nodes, edges, r.choice(["edges", "mapping"]), "cycrand", cyclic=True), kinds
+    elif key == "sess_lab":
+        lo, hi, k, shards = args
+        idx = 0
+        for n in range(lo, hi + 1):
+            for es in labelled_dags(n):
+                idx += 1
+                if idx % shards != k:
+                    continue
+                kinds = ("graph", "task") if idx % 3 == 0 else ("graph", "job") if idx % 3 == 1 else ("graph",)
+                yield build(n, list(range(1, n + 1)), es, "session", "sess_lab"), kinds
+    elif key == "sess_rand":
+        k, count = args
+        r = rng(f"c17:sess_rand:{k}")
+        for j in range(count):
+            n = r.choice([5, 5, 6, 6, 7, 8, 9, 10, 12, 16])
+            nodes, edges = random_dag(r, n, r.choice([0.15, 0.25, 0.4, 0.6]))
+            kinds = ("graph", "task") if j % 3 == 0 else ("graph", "job") if j % 3 == 1 else ("graph",)
+            yield build(n, nodes, edges, "session", "sess_rand"), kinds
+    elif key == "sess_cyc":
+        n, sample = args
+        r = rng(f"c17:sess_cyc:{n}")
+        if sample is None:
+            allc = [(m, es) for m in range(1, n + 1) for es in cyclic_digraphs(m, loops=True)]
+        else:
+            allc = [(n, es) for es in cyclic_digraphs(n, loops=False)]
+            allc = r.sample(allc, min(sample, len(allc)))
+        for idx, (m, es) in enumerate(allc):
+            if sample is None and m == 3 and idx % 4 != 0:
+                continue
+            nodes = list(range(1, m + 1))
+            r.shuffle(nodes)
+            kinds = ("graph", "task") if idx % 5 == 0 else ("graph", "job") if idx % 5 == 1 else ("graph",)
+            yield build(m, nodes, list(es), "session", f"sess_cyc{m}", cyclic=True), kinds
     else:
         raise AssertionError(key)
+
+
+# ---------------------------------------------------------------------------
+# sessions: constructor mapping + mutator calls (the spec computes the graph of every
+# version from them) and the script of mutations / queries to perform
+
+
+def static_session(b):
+    """the object is built completely (constructor mapping, or add_node for every node then
+    add_child for every edge); all queries are asked on the final version"""
+    if b["style"] == "mapping":
+        return {"n": b["n"], "init": mapping_of(b), "muts": []}
+    return {"n": b["n"], "init": [],
+            "muts": [("add_node", v, 0) for v in b["nodes"]] + [("add_child", a, c) for a, c in b["edges"]]}
+
+
+def grow_shrink_muts(b, r):
+    """Mutator calls that grow the build's graph in a seeded order (a child may be created
+    implicitly by add_child; add_node of an existing node is a no-op), then remove parentless
+    nodes and re-attach some of them.  Only input generation: whether each call is one the
+    graph machine allows is decided by the specification (DagTrace, MutOK)."""
+    edges = [tuple(e) for e in b["edges"]]
+    r.shuffle(edges)
+    present, muts = set(), []
+    for a, c in edges:
+        if a not in present:
+            muts.append(("add_node", a, 0))
+            present.add(a)
+        if c not in present and r.random() < 0.4:
+            muts.append(("add_node", c, 0))
+            present.add(c)
+        muts.append(("add_child", a, c))
+        present.add(c)
+        if r.random() < 0.08:
+            muts.append(("add_node", r.choice(sorted(present)), 0))  # no-op
+    for v in b["nodes"]:
+        if v not in present:
+            muts.insert(r.randint(0, len(muts)), ("add_node", v, 0))
+    V, E = set(b["nodes"]), set(edges)
+    for _ in range(r.randint(1, 3)):
+        free = sorted(v for v in V if not any(e[1] == v for e in E))
+        if not free or len(V) <= 1:
+            break
+        v = r.choice(free)
+        out = sorted(e for e in E if e[0] == v)
+        muts.append(("remove", v, 0))
+        V.discard(v)
+        E -= set(out)
+        how = r.random()
+        if how < 0.35 and out:
+            # back as a parent of (some of) its former children
+            muts.append(("add_node", v, 0))
+            V.add(v)
+            for e in out:
+                if r.random() < 0.7:
+                    muts.append(("add_child", v, e[1]))
+                    E.add(e)
+        elif how < 0.6:
+            # back as a childless child of another node
+            u = r.choice(sorted(V))
+            muts.append(("add_child", u, v))
+            V.add(v)
+            E.add((u, v))
+    return muts
+
+
+def nodes_after(V, m):
+    op, a, c = m
+    if op == "remove":
+        return V - {a}
+    return V | ({a} if op == "add_node" else {a, c})
+
+
+def random_query(kind, bw, V, wvs, traversals, r):
+    """one query spec (kind, build weights, method, func, args, w) on the current node set"""
+    vs = sorted(V)
+    pool = ["topological_sort", "get_node_depth", "get_node_depth", "get_node_depth"]
+    if len(vs) >= 2:
+        pool += ["are_dependent"] * 3
+    if kind == "graph":
+        pool += ["get_sources", "get_longest_path", "get_longest_path"]
+        if traversals:
+            pool += ["breadth_first", "depth_first_all", "depth_first", "breadth_first_from"]
+    else:
+        pool += ["critical_path_runtime"] * 2
+        pool += ["get_source_tasks", "get_sink_tasks"] if kind == "task" else ["completion_time", "get_sources"]
+        if traversals:
+            pool += ["breadth_first", "depth_first"]
+    m = r.choice(pool)
+    func, args, w = "", [], []
+    if m == "get_node_depth":
+        func, args = r.choice(["", "", "min", "min", "max"]), [r.choice(vs)]
+    elif m == "are_dependent":
+        args = r.sample(vs, 2)
+    elif m in ("depth_first", "breadth_first_from"):
+        args = [r.choice(vs)]
+    elif m == "get_longest_path":
+        w = r.choice([[]] + wvs)
+    elif m in ("critical_path_runtime", "completion_time"):
+        w = bw
+    return (kind, list(bw), m, func, list(args), list(w))
+
+
+def session_script(n, muts, objs, traversals, r, per_version=(2, 4), V0=()):
+    """[("m", k) | ("c", query spec)]: the mutator calls in order, queries in between.  Queries
+    of the previous queried version are asked again (an answer remembered across a mutation is
+    exposed), some queries are asked twice in a row, sometimes several mutations pass unobserved."""
+    wvs = weight_vectors(r, n, 3)
+    script, prev, V = [], [], set(V0)
+    for k, m in enumerate(muts):
+        script.append(("m", k))
+        V = nodes_after(V, m)
+        if not V or (k + 1 < len(muts) and r.random() < 0.2):
+            continue
+        qs = [q for q in prev if set(q[4]) <= V and r.random() < 0.6]
+        for _ in range(r.randint(*per_version)):
+            kind, bw = r.choice(objs)
+            qs.append(random_query(kind, bw, V, wvs, traversals, r))
+        r.shuffle(qs)
+        if r.random() < 0.5:
+            qs.insert(r.randint(0, len(qs)), r.choice(qs))
+        script += [("c", q) for q in qs]
+        prev = qs
+    return script
+
+
+def session_objects(kinds, n, r):
+    wvs = weight_vectors(r, n, 3)
+    objs = [("graph", [])]
+    if "task" in kinds:
+        objs.append(("task", wvs[r.randint(0, 1)]))
+    if "job" in kinds:
+        objs.append(("job", wvs[r.randint(1, 2)]))
+    return objs
 
 
 # ---------------------------------------------------------------------------
@@ -267,11 +458,12 @@ def mapping_of(b):
     return [(v, [c for (a, c) in b["edges"] if a == v]) for v in b["nodes"]]
 
 
-def make(kind, b, weights):
-    """Build the real object through its public constructor / mutators.  Returns
-    (object, node id -> node object, node object -> node id)."""
+def make(kind, sess, weights, upto):
+    """Build the real object through its public constructor and apply the first `upto`
+    mutator calls of the session.  Returns (object, node id -> node object, node object ->
+    node id)."""
     N = ns()
-    n = b["n"]
+    n = sess["n"]
     dem = [{"name": "cpu", "id": "any", "q": 1}]
     if kind == "graph":
         import importlib
@@ -302,15 +494,22 @@ def make(kind, b, weights):
     if kind != "graph":
         ids = {id(o): v for v, o in obj.items()}
         back = lambda x: ids[id(x)]  # noqa: E731
-    if b["style"] == "mapping":
-        g = new({obj[v]: [obj[c] for c in cs] for v, cs in mapping_of(b)})
-    else:
-        g = new({})
-        for v in b["nodes"]:
-            g.add_node(obj[v])
-        for a, c in b["edges"]:
-            g.add_child(obj[a], obj[c])
+    g = new({obj[v]: [obj[c] for c in cs] for v, cs in sess["init"]})
+    for m in sess["muts"][:upto]:
+        mutate(g, obj, m)
     return g, obj, back
+
+
+def mutate(g, obj, m):
+    op, a, c = m
+    if op == "add_node":
+        g.add_node(obj[a])
+    elif op == "add_child":
+        g.add_child(obj[a], obj[c])
+    elif op == "remove":
+        g.remove(obj[a])
+    else:
+        raise AssertionError(op)
 
 
 class _Timeout(Exception):
@@ -333,7 +532,10 @@ def _as_int(x):
     return x
 
 
-def invoke(g, obj, back, n, method, args, w):
+FUNCS = {"min": min, "max": max}
+
+
+def invoke(g, obj, back, n, method, func, args, w):
     """(thunk calling the public method, projection of its value to node ids / ints / bools,
     cap on the number of items drawn from a generator)"""
     N = ns()
@@ -357,6 +559,8 @@ def invoke(g, obj, back, n, method, args, w):
     if method == "completion_time":
         return (lambda: g.completion_time), t_us, None
     if method == "get_node_depth":
+        if func:
+            return (lambda: g.get_node_depth(obj[args[0]], func=FUNCS[func])), _as_int, None
         return (lambda: g.get_node_depth(obj[args[0]])), _as_int, None
     if method == "are_dependent":
         return (lambda: g.are_dependent(obj[args[0]], obj[args[1]])), _as_bool, None
@@ -372,42 +576,72 @@ def invoke(g, obj, back, n, method, args, w):
 
 
 class Recorder:
-    """Calls public methods and records (method, args, result | exception type)."""
+    """Drives the real objects of one session through its script and records every query
+    (object, version, method, func, args, result | exception type)."""
 
     def __init__(self):
-        self.calls = []  # records of the current graph
+        self.calls = []  # records of the current session
         self.next_id = 1
-        self.meta = {}  # id -> (graph index, kind, build weights, method, args, weights, got)
+        self.meta = {}  # id -> (session index, kind, build weights, method, func, args, weights, got, object, index)
+        self.mutator_calls = {}
 
-    def perform(self, gi, b, specs):
-        """specs: [(kind, build weights, method, args, w)] — all on the same abstract graph"""
-        cache = {}
-        for kind, bw, method, args, w in specs:
+    def _timed(self, thunk):
+        """-> (raised, value, got)"""
+        signal.setitimer(signal.ITIMER_PROF, CALL_TIMEOUT_S)
+        try:
+            val = thunk()
+            return "", val, val
+        except _Timeout:
+            return "Timeout", 0, f"no answer within {CALL_TIMEOUT_S}s of CPU time"
+        except Exception as ex:  # the exception type is part of the record
+            return type(ex).__name__, 0, f"{type(ex).__name__}: {ex}"[:200]
+        finally:
+            signal.setitimer(signal.ITIMER_PROF, 0)
+
+    def _record(self, gi, oi, ver, kind, bw, method, func, args, w, raised, result, got):
+        cid = self.next_id
+        self.next_id += 1
+        self.calls.append({"id": cid, "obj": oi, "ver": ver, "method": method, "func": func, "args": list(args),
+                           "w": list(w), "result": result, "raised": raised})
+        self.meta[cid] = (gi, kind, list(bw), method, func, list(args), list(w), got, oi, len(self.calls) - 1)
+
+    def perform(self, gi, sess, script):
+        """script: [("m", k) -> apply sess["muts"][k] to every live object |
+        ("c", (kind, build weights, method, func, args, w)) -> query]"""
+        live = {}  # (kind, weights) -> [index, g, obj, back]
+        ver = 0
+        n = sess["n"]
+        for item in script:
+            if item[0] == "m":
+                assert item[1] == ver, (item, ver)
+                m = sess["muts"][ver]
+                self.mutator_calls[m[0]] = self.mutator_calls.get(m[0], 0) + 1
+                for (kind, bw), (oi, g, obj, back) in live.items():
+                    raised, _, got = self._timed(lambda: mutate(g, obj, m))
+                    if raised:
+                        # a mutator call the graph machine allows must succeed
+                        self._record(gi, oi, ver, kind, bw, m[0], "", [x for x in m[1:] if x], [], raised, 0, got)
+                ver += 1
+                continue
+            kind, bw, method, func, args, w = item[1]
             ck = (kind, tuple(bw))
-            if ck not in cache:
-                cache[ck] = make(kind, b, bw)
-            g, obj, back = cache[ck]
-            raised, result, got = "", 0, None
-            signal.setitimer(signal.ITIMER_REAL, CALL_TIMEOUT_S)
-            try:
-                fn, proj, cap = invoke(g, obj, back, b["n"], method, args, w)
+            if ck not in live:
+                raised, val, got = self._timed(lambda: make(kind, sess, bw, ver))
+                if raised:
+                    self._record(gi, len(live), ver, kind, bw, "construct", "", [], [], raised, 0, got)
+                    continue
+                live[ck] = [len(live)] + list(val)
+            oi, g, obj, back = live[ck]
+
+            def call():
+                fn, proj, cap = invoke(g, obj, back, n, method, func, args, w)
                 val = fn()
                 if cap is not None:
                     val = list(itertools.islice(val, cap))
-                result = proj(val)
-                got = result
-            except _Timeout:
-                raised, got = "Timeout", f"no answer within {CALL_TIMEOUT_S}s"
-            except Exception as ex:  # the exception type is part of the record
-                raised = type(ex).__name__
-                got = f"{type(ex).__name__}: {ex}"[:200]
-            finally:
-                signal.setitimer(signal.ITIMER_REAL, 0)
-            cid = self.next_id
-            self.next_id += 1
-            self.calls.append({"id": cid, "method": method, "args": list(args), "w": list(w), "result": result,
-                               "raised": raised})
-            self.meta[cid] = (gi, kind, list(bw), method, list(args), list(w), got)
+                return proj(val)
+
+            raised, result, got = self._timed(call)
+            self._record(gi, oi, ver, kind, bw, method, func, args, w, raised, result, got)
 
 
 def weight_vectors(r, n, count):
@@ -420,7 +654,7 @@ def weight_vectors(r, n, count):
 
 
 def plan(b, kinds, r, tier):
-    """the calls to make on one abstract graph: [(kind, build weights, method, args, w)]"""
+    """the calls to make on one abstract graph: [(kind, build weights, method, func, args, w)]"""
     n = b["n"]
     cyc = b["cyclic"]
     nodes = list(range(1, n + 1))
@@ -429,8 +663,8 @@ def plan(b, kinds, r, tier):
     wvs = weight_vectors(r, n, 3)
     specs = []
 
-    def add(kind, bw, method, args=(), w=()):
-        specs.append((kind, list(bw), method, list(args), list(w)))
+    def add(kind, bw, method, args=(), w=(), func=""):
+        specs.append((kind, list(bw), method, func, list(args), list(w)))
 
     if "graph" in kinds:
         add("graph", [], "topological_sort")
@@ -441,6 +675,10 @@ def plan(b, kinds, r, tier):
         dn = nodes if not big else r.sample(nodes, min(n, 10 if q else 16))
         for v in dn if not cyc else dn[:3]:
             add("graph", [], "get_node_depth", [v])
+            # the optional argument: depth through the shallowest parent / explicit max
+            add("graph", [], "get_node_depth", [v], func="min")
+        for v in r.sample(dn, min(2, len(dn))):
+            add("graph", [], "get_node_depth", [v], func="max")
         pairs = [(a, c) for a in nodes for c in nodes if a != c]
         if cyc:
             pairs = r.sample(pairs, min(len(pairs), 4))
@@ -476,9 +714,40 @@ def plan(b, kinds, r, tier):
                 add(kind, w, "breadth_first")
                 add(kind, w, "depth_first", [v])
                 add(kind, w, "get_node_depth", [v])
+                add(kind, w, "get_node_depth", [u], func="min")
                 if u != v:
                     add(kind, w, "are_dependent", [u, v])
     return specs
+
+
+def static_script(sess, specs, r):
+    """All mutator calls, then the queries in a seeded shuffled order (objects and methods
+    interleaved) with repeats: one more query of about every third (object, method, func)
+    group is asked again somewhere later / earlier."""
+    groups = {}
+    for q in specs:
+        groups.setdefault((q[0], tuple(q[1]), q[2], q[3]), []).append(q)
+    qs = list(specs)
+    repeats = 0
+    for key in sorted(groups):
+        if r.random() < 0.35:
+            qs.append(r.choice(groups[key]))
+            repeats += 1
+    r.shuffle(qs)
+    return [("m", k) for k in range(len(sess["muts"]))] + [("c", q) for q in qs], repeats
+
+
+def gen_items(key, args, tier, r):
+    """yield (build, session, script) for one part"""
+    for b, kinds in gen_builds(key, args, tier):
+        if b["style"] == "session":
+            muts = grow_shrink_muts(b, r)
+            sess = {"n": b["n"], "init": [], "muts": muts}
+            script = session_script(b["n"], muts, session_objects(kinds, b["n"], r), not b["cyclic"], r)
+        else:
+            sess = static_session(b)
+            script, _ = static_script(sess, plan(b, kinds, r, tier), r)
+        yield b, sess, script
 
 
 # ---------------------------------------------------------------------------
@@ -568,11 +837,12 @@ KIND_CLASS = {"graph": "Graph", "task": "TaskGraph", "job": "JobGraph"}
 
 
 def _fail_order(f):
-    b = f["detail"]["build"]
-    return (f["size"], b["style"], b["nodes"], b["edges"], f["detail"]["call"])
+    d = f["detail"]
+    return (f["size"], json.dumps(d["session"]["init"]), json.dumps(d["session"]["mutator_calls"]), d["call"],
+            len(d["earlier_calls_on_the_object"]))
 
 
-def _call_text(method, args, w):
+def _call_text(method, func, args, w):
     if method == "get_longest_path":
         return f"get_longest_path(weights=node -> {w}[node - 1])" if w else "get_longest_path()"
     if method in ("critical_path_runtime", "completion_time"):
@@ -581,6 +851,8 @@ def _call_text(method, args, w):
         return "depth_first()"
     if method == "breadth_first_from":
         return f"breadth_first({args[0]})"
+    if method == "get_node_depth" and func:
+        return f"get_node_depth({args[0]}, func={func})"
     return f"{method}({', '.join(map(str, args))})"
 
 
@@ -589,55 +861,100 @@ def finding_key(kind, method, reason):
     return f"{m}:{reason}"
 
 
-def run_batch(name, parts, tier, workers):
-    """Generate, exercise, judge.  Returns a plain dict (picklable)."""
-    t0 = time.time()
-    signal.signal(signal.SIGALRM, _alarm)
+def _script_of_object(sess, calls, oi, upto_index):
+    """what happened to object `oi` up to and including calls[upto_index]: the mutator calls and
+    its own queries, in order (enough to reproduce an answer that depends on the history)"""
+    out, ver = [], 0
+    for c in calls[: upto_index + 1]:
+        if c["obj"] != oi:
+            continue
+        while ver < c["ver"]:
+            out.append(["m"] + list(sess["muts"][ver]))
+            ver += 1
+        out.append(["c", c["method"], c["func"], c["args"], c["w"]])
+    return out
+
+
+def _entry(gi, sess, calls):
+    return {"g": gi, "n": sess["n"],
+            "init": [{"v": v, "cs": list(cs)} for v, cs in sess["init"]],
+            "muts": [{"op": op, "a": a, "b": c} for op, a, c in sess["muts"]],
+            "calls": calls}
+
+
+def exercise_and_judge(name, items, workers, t0):
+    """items: iterable of (part name, build | None, session, script).  Exercise the real objects,
+    let TLC judge the records, group the verdicts.  Returns a plain dict (picklable)."""
+    signal.signal(signal.SIGPROF, _alarm)
     rec = Recorder()
-    entries, builds = [], []
+    entries, sessions = [], []
     per_method = {}
-    n_cyc = 0
     per_part = {}
-    for pname, key, args in parts:
-        r = rng(f"c17:calls:{pname}")
-        for b, kinds in gen_builds(key, args, tier):
-            gi = len(entries)
-            rec.calls = []
-            rec.perform(gi, b, plan(b, kinds, r, tier))
-            builds.append((b, kinds, pname))
-            n_cyc += 1 if b["cyclic"] else 0
-            entries.append({"g": gi, "n": b["n"], "edges": b["edges"], "calls": rec.calls})
-            pp = per_part.setdefault(pname, [0, 0])
-            pp[0] += 1
-            pp[1] += len(rec.calls)
-            for c in rec.calls:
-                per_method[c["method"]] = per_method.get(c["method"], 0) + 1
+    stats = {"cyclic_graphs": 0, "sessions_with_queries_between_mutations": 0, "queried_versions": 0,
+             "records_before_the_last_mutation": 0, "records_after_a_removal": 0, "repeated_queries": 0,
+             "records_func_min": 0, "records_func_max": 0, "objects": 0}
+    for pname, b, sess, script in items:
+        gi = len(entries)
+        rec.calls = []
+        rec.perform(gi, sess, script)
+        calls = rec.calls
+        sessions.append((sess, b, pname))
+        if b is not None and b["cyclic"]:
+            stats["cyclic_graphs"] += 1
+        entries.append(_entry(gi, sess, calls))
+        pp = per_part.setdefault(pname, [0, 0])
+        pp[0] += 1
+        pp[1] += len(calls)
+        last = len(sess["muts"])
+        first_removal = min([k for k, m in enumerate(sess["muts"]) if m[0] == "remove"], default=last)
+        seen = set()
+        for c in calls:
+            per_method[c["method"]] = per_method.get(c["method"], 0) + 1
+            sig = (c["obj"], c["ver"], c["method"], c["func"], tuple(c["args"]), tuple(c["w"]))
+            stats["repeated_queries"] += sig in seen
+            seen.add(sig)
+            stats["records_before_the_last_mutation"] += c["ver"] < last
+            stats["records_after_a_removal"] += c["ver"] > first_removal
+            stats["records_func_min"] += c["func"] == "min"
+            stats["records_func_max"] += c["func"] == "max"
+        vs = {c["ver"] for c in calls}
+        stats["queried_versions"] += len(vs)
+        stats["sessions_with_queries_between_mutations"] += len(vs) > 1
+        stats["objects"] += len({c["obj"] for c in calls})
     nrecords = rec.next_id - 1
     t1 = time.time()
     with Scratch() as scratch:
         fails, counts, tr = judge_batch(scratch, name, entries, nrecords, workers)
     out_f = []
     for cid, clause, reason, exp in fails:
-        gi, kind, bw, method, cargs, w, got = rec.meta[cid]
-        b, _, pname = builds[gi]
+        gi, kind, bw, method, func, cargs, w, got, oi, ci = rec.meta[cid]
+        sess, b, pname = sessions[gi]
+        c = entries[gi]["calls"][ci]
+        hist = _script_of_object(sess, entries[gi]["calls"], oi, ci)
         out_f.append(
             {
                 "clause": clause,
                 "reason": reason,
-                "key": finding_key(kind, method, reason),
-                "size": (b["n"], len(b["edges"]), len(cargs), sum(w)),
+                "key": finding_key(kind, method + ("_min" if func == "min" else ""), reason),
+                "size": (sess["n"], len(hist), len(sess["init"]) + c["ver"], len(cargs), sum(w)),
                 "detail": {
                     "class": KIND_CLASS[kind],
-                    "n": b["n"],
+                    "n": sess["n"],
                     "construction": (
-                        {"style": "constructor mapping {node: [children]}", "mapping": mapping_of(b)}
-                        if b["style"] == "mapping"
-                        else {"style": "add_node(v) for v in nodes; add_child(a, c) for (a, c) in edges",
-                              "nodes": b["nodes"], "edges": b["edges"]}
+                        {"style": "constructor mapping {node: [children]}, then the mutator calls",
+                         "mapping": sess["init"], "mutator_calls": [list(m) for m in sess["muts"][: c["ver"]]]}
                     ),
-                    "build": b,
-                    "call": _call_text(method, cargs, w),
+                    "session": {"n": sess["n"], "init": [[v, list(cs)] for v, cs in sess["init"]],
+                                "mutator_calls": [list(m) for m in sess["muts"][: c["ver"]]]},
+                    "version": c["ver"],
+                    "call": _call_text(method, func, cargs, w),
+                    "earlier_calls_on_the_object": [
+                        _call_text(h[1], h[2], h[3], h[4]) if h[0] == "c" else f"<{h[1]}({h[2]}{', ' + str(h[3]) if h[1] == 'add_child' else ''})>"
+                        for h in hist[:-1]
+                    ],
+                    "object_script": hist,
                     "method": method,
+                    "func": func,
                     "args": cargs,
                     "weights": w,
                     "node_runtimes": bw,
@@ -653,40 +970,161 @@ def run_batch(name, parts, tier, workers):
         g = grouped.setdefault((f["clause"], f["key"]), {"count": 0, "examples": []})
         g["count"] += 1
         if len(g["examples"]) < 4:
+            d = f["detail"]
             try:
-                f["detail"]["expected"] = _printable(tlaval.parse(f["detail"]["expected"]))
+                d["expected"] = _printable(tlaval.parse(d["expected"]))
             except tlaval.ParseError:
                 pass
+            # diagnostic only: the same call on a fresh object brought to the same version without
+            # any earlier query (a different answer = the answer depends on the history)
+            kind = {v: k for k, v in KIND_CLASS.items()}[d["class"]]
+            sess_f = {"n": d["n"], "init": d["session"]["init"], "muts": d["session"]["mutator_calls"]}
+            d["same_call_on_a_fresh_object"] = None
+            if d["method"] not in ("construct", "add_node", "add_child", "remove"):
+                probe = Recorder()
+                probe.perform(0, sess_f, [("m", k) for k in range(len(sess_f["muts"]))]
+                              + [("c", (kind, d["node_runtimes"], d["method"], d["func"], d["args"], d["weights"]))])
+                d["same_call_on_a_fresh_object"] = probe.meta[probe.next_id - 1][7] if probe.meta else None
             g["examples"].append(f)
-    failing_graphs = {id(f["detail"]["build"]) for f in out_f}
     sample = None
     if entries:
         gi = len(entries) // 2
         e = entries[gi]
         sample = {
-            "part": builds[gi][2],
-            "graph": {"n": e["n"], "edges": e["edges"], "style": builds[gi][0]["style"], "nodes": builds[gi][0]["nodes"]},
+            "part": sessions[gi][2],
+            "session": {"n": e["n"], "init": e["init"], "muts": [[m["op"], m["a"], m["b"]] for m in e["muts"]][:30]},
             "records": [
-                {"method": c["method"], "args": c["args"], "w": c["w"],
-                 "result": c["result"] if not c["raised"] else None, "raised": c["raised"]}
-                for c in {c["method"]: c for c in reversed(e["calls"])}.values()
-            ][:8],
-            "verdict": "accepted by DagTrace" if id(builds[gi][0]) not in failing_graphs else "see violations",
+                {"obj": c["obj"], "ver": c["ver"], "method": c["method"], "func": c["func"], "args": c["args"],
+                 "w": c["w"], "result": c["result"] if not c["raised"] else None, "raised": c["raised"]}
+                for c in e["calls"][:8]
+            ],
+            "verdict": "see violations / notes" if any(rec.meta[cid][0] == gi for cid, *_ in fails)
+            else "accepted by DagTrace",
         }
     return {
         "name": name,
         "graphs": len(entries),
-        "cyclic_graphs": n_cyc,
         "records": nrecords,
         "per_method": per_method,
         "per_clause": counts,
         "per_part": per_part,
+        "stats": stats,
+        "mutator_calls": rec.mutator_calls,
         "failures": grouped,
         "sample": sample,
         "wall_exercise_s": round(t1 - t0, 2),
         "wall_tlc_s": round(tr.wall_s, 2),
         "tlc_states": tr.distinct,
     }
+
+
+def run_batch(name, parts, tier, workers):
+    """Generate, exercise, judge the sessions of the given parts."""
+    t0 = time.time()
+
+    def items():
+        for pname, key, args in parts:
+            r = rng(f"c17:calls:{pname}")
+            for b, sess, script in gen_items(key, args, tier, r):
+                yield pname, b, sess, script
+
+    return exercise_and_judge(name, items(), workers, t0)
+
+
+# ---------------------------------------------------------------------------
+# walks: TLC explores the graph machine (DagMC, ObjSpec); walks covering the transitions of
+# its dumped state graph are replayed on real objects, queries after every step
+
+
+def _state_key(st):
+    return (tuple(sorted(st["mcV"])), tuple(sorted(tuple(e) for e in st["mcE"])), tuple(st["mcLast"]))
+
+
+def cover_walks(g, r, max_len, max_steps):
+    """walks from the initial state that together take every transition (greedy: an untaken
+    transition of the current state, else the shortest route to a state that has one); returns
+    ([walk = list of state keys after the initial state], transitions, transitions taken)"""
+    key = {nid: _state_key(st) for nid, st in g.states.items()}
+    adj = {}
+    for nid, outs in g.edges.items():
+        adj[key[nid]] = sorted({key[d] for _, d in outs})
+    init = key[g.init[0]]
+    untaken = {(a, d) for a, ds in adj.items() for d in ds}
+    total = len(untaken)
+    walks, steps = [], 0
+    while untaken and steps < max_steps:
+        cur, walk = init, []
+        while len(walk) < max_len:
+            cand = [d for d in adj[cur] if (cur, d) in untaken]
+            if cand:
+                route = [r.choice(cand)]
+            else:
+                # breadth-first route to the nearest state with an untaken transition
+                prev, frontier, goal = {cur: None}, [cur], None
+                while frontier and goal is None:
+                    nxt = []
+                    for a in frontier:
+                        for d in adj[a]:
+                            if d in prev:
+                                continue
+                            prev[d] = a
+                            if any((d, x) in untaken for x in adj[d]):
+                                goal = d
+                                break
+                            nxt.append(d)
+                        if goal is not None:
+                            break
+                    frontier = nxt
+                if goal is None:
+                    break
+                route = []
+                while goal != cur:
+                    route.append(goal)
+                    goal = prev[goal]
+                route.reverse()
+                if walk and len(walk) + len(route) >= max_len:
+                    break  # closer from the initial state of a new walk
+            for d in route:
+                untaken.discard((cur, d))
+                walk.append(d)
+                cur = d
+        if not walk:
+            break
+        steps += len(walk)
+        walks.append(walk)
+    return walks, total, total - len(untaken)
+
+
+def run_walk(name, consts, tier, workers, max_len, max_steps):
+    t0 = time.time()
+    with Scratch() as scratch:
+        mod, cf = mcgen.write_mc(
+            scratch, "DagMC", consts, name="MC_DagMC_" + re.sub(r"\W", "_", name), spec="ObjSpec", invariants=OBJ_INV
+        )
+        dot = os.path.join(scratch, "objgraph")
+        mcr = _tlc_in(scratch, mod, cf, workers=workers, deadlock=False, dump_dot=dot,
+                      java_opts=mcgen.LIB_OPT + ["-XX:ParallelGCThreads=2"], timeout=3400)
+        mcr.stdout = mcr.stdout[-4000:]
+        if not mcr.ok:
+            return {"mc": name, "consts": consts, "tlc": mcr}
+        g = tlc.load_dot(dot + ".dot")
+    r = rng(f"c17:walk:{name}")
+    walks, total, taken = cover_walks(g, r, max_len, max_steps)
+    n = consts["MCN"]
+
+    def items():
+        for wi, walk in enumerate(walks):
+            muts = [tuple(k[2]) for k in walk]
+            kinds = ("graph", "task") if wi % 7 == 0 else ("graph", "job") if wi % 7 == 1 else ("graph",)
+            sess = {"n": n, "init": [], "muts": muts}
+            script = session_script(n, muts, session_objects(kinds, n, r), True, r, per_version=(1, 3))
+            yield name, None, sess, script
+
+    out = exercise_and_judge(name, items(), workers, t0)
+    out.update({"mc": name, "consts": consts, "tlc": mcr,
+                "walk": {"machine_states": len(g.states), "machine_transitions": total, "transitions_replayed": taken,
+                         "walks": len(walks), "steps": sum(len(w) for w in walks), "max_walk_length": max_len}})
+    return out
 
 
 def run_mc(name, consts, workers):
@@ -703,6 +1141,8 @@ def run_mc(name, consts, workers):
 def _job(kind, *a):
     if kind == "mc":
         return run_mc(*a)
+    if kind == "walk":
+        return run_walk(*a)
     return run_batch(*a)
 
 
@@ -715,7 +1155,8 @@ WHAT = {
     "C17.longest_path": "get_longest_path is not a source-to-sink path of maximum total weight",
     "C17.critical_path": "critical-path runtime differs from the maximum source-to-sink path weight",
     "C17.dependent": "are_dependent disagrees with reachability",
-    "C17.depth": "get_node_depth differs from 1 + longest chain of parents",
+    "C17.depth": "get_node_depth differs from 1 + the depth of the deepest (func=min: shallowest) parent",
+    "C17.mutator": "a constructor / mutator call that yields a graph raised",
     "C17.sources": "sources do not match the graph",
     "C17.sinks": "sinks do not match the graph",
     "C17.bfs": "breadth-first iteration does not yield every node once with parents first",
@@ -740,6 +1181,12 @@ def run(tier: str) -> CheckResult:
         "depth_first() without a start node is judged as depth-first iteration from the sources; "
         "breadth_first(node) is outside the statement and only reported as info.bfs_from",
         "Task / Job nodes: distinct names, one timestamp, slo unset, probability 1 (no conditional branches)",
+        "the object as a state machine: add_node, add_child(existing parent, new edge) and remove(node without "
+        "parents) -- Graph.remove leaves the removed node in its parents' child lists, so only a parentless node "
+        "can be removed and leave a graph; every query is judged against the graph of the version it was asked on",
+        "conv.cached_property: critical_path_runtime (functools.cached_property) and completion_time are declared "
+        "computed-once by the code; a read that repeats the value of an earlier read on an earlier version of the "
+        "same object is reported as info.cached_property, not as a violation",
     ]
     q = tier == "quick"
     jobs = []
@@ -749,6 +1196,14 @@ def run(tier: str) -> CheckResult:
     else:
         jobs.append(("mc", "DagMC/N4W3loops", {"MCN": 4, "MCW": 3, "MCLoops": True, "MCUpper": False}, 2))
         jobs.append(("mc", "DagMC/N5W2upper", {"MCN": 5, "MCW": 2, "MCLoops": False, "MCUpper": True}, 2))
+    if q:
+        jobs.append(("walk", "walk/ObjN3", {"MCN": 3, "MCW": 1, "MCLoops": False, "MCUpper": False}, tier, 1,
+                     16, 4200))
+    else:
+        jobs.append(("walk", "walk/ObjN3loops", {"MCN": 3, "MCW": 1, "MCLoops": True, "MCUpper": False}, tier, 2,
+                     20, 60000))
+        jobs.append(("walk", "walk/ObjN4", {"MCN": 4, "MCW": 1, "MCLoops": False, "MCUpper": False}, tier, 2,
+                     24, 60000))
     labelled_dags(4)  # computed once before forking
     if not q:
         labelled_dags(5)
@@ -761,7 +1216,8 @@ def run(tier: str) -> CheckResult:
     per_method, per_clause, batches = {}, {}, []
     batch_samples = []
     by_key = {}
-    graphs = cyc = 0
+    graphs = 0
+    stats, mutator_calls, walks = {}, {}, {}
     for o in outs:
         if "mc" in o:
             r = o["tlc"]
@@ -772,9 +1228,14 @@ def run(tier: str) -> CheckResult:
                 raise tlc.TLCMachineryError(
                     f"DagMC {o['consts']}: {r.violation_kind} {r.violation_name} violated\n{r.stdout[-3000:]}"
                 )
-            continue
+            if "walk" not in o:
+                continue
+            walks[o["mc"]] = o["walk"]
         graphs += o["graphs"]
-        cyc += o["cyclic_graphs"]
+        for k, v in o["stats"].items():
+            stats[k] = stats.get(k, 0) + v
+        for k, v in o["mutator_calls"].items():
+            mutator_calls[k] = mutator_calls.get(k, 0) + v
         res.traces_validated += o["records"]
         res.states += o["tlc_states"]
         for k, v in o["per_method"].items():
@@ -804,7 +1265,8 @@ def run(tier: str) -> CheckResult:
         detail = dict(mn["detail"])
         detail["failing_records"] = g["count"]
         detail["other_examples"] = [
-            {k: f["detail"][k] for k in ("class", "construction", "call", "weights", "got", "expected")}
+            {k: f["detail"][k] for k in ("class", "construction", "earlier_calls_on_the_object", "call", "weights",
+                                         "got", "expected", "same_call_on_a_fresh_object")}
             for f in fs[1:4]
         ]
         failing_per_clause[clause] = failing_per_clause.get(clause, 0) + g["count"]
@@ -813,14 +1275,19 @@ def run(tier: str) -> CheckResult:
             continue
         res.violate(
             clause,
-            f"{WHAT.get(clause, clause)}: {detail['class']} {detail['construction']} {detail['call']} -> "
-            f"{detail['got']} ({mn['reason']}; {g['count']} failing records)",
+            f"{WHAT.get(clause, clause)}: {detail['class']} {detail['construction']} "
+            f"after {len(detail['earlier_calls_on_the_object'])} earlier calls on the object "
+            f"{detail['earlier_calls_on_the_object'][-6:]} {detail['call']} -> "
+            f"{detail['got']} ({mn['reason']}; same call on a fresh object: "
+            f"{detail.get('same_call_on_a_fresh_object')}; {g['count']} failing records)",
             detail,
             key=key,
         )
         res.samples.append({"violation": clause, "key": key, "construction": detail["construction"],
+                            "earlier_calls_on_the_object": detail["earlier_calls_on_the_object"],
                             "call": detail["call"], "weights": detail["weights"], "got": detail["got"],
-                            "expected": detail["expected"]})
+                            "expected": detail["expected"],
+                            "same_call_on_a_fresh_object": detail.get("same_call_on_a_fresh_object")})
     res.samples = res.samples[:5] + batch_samples
     if info:
         res.extra["informational_outside_statement"] = info
@@ -832,11 +1299,15 @@ def run(tier: str) -> CheckResult:
     res.extra.update(
         {
             "graphs": graphs,
-            "cyclic_graphs": cyc,
+            "cyclic_graphs": stats.pop("cyclic_graphs", 0),
+            "history_and_mutation_coverage": dict(sorted(stats.items())),
+            "mutator_calls": dict(sorted(mutator_calls.items())),
+            "machine_walks": walks,
             "records_per_method": dict(sorted(per_method.items())),
             "records_per_clause": dict(sorted(per_clause.items())),
             "failing_records_per_clause": failing_per_clause,
-            "clauses_not_exercised": sorted(c for c in WHAT if per_clause.get(c, 0) == 0),
+            # C17.mutator only gets a record when an allowed constructor / mutator call raises
+            "clauses_not_exercised": sorted(c for c in WHAT if per_clause.get(c, 0) == 0 and c != "C17.mutator"),
             "batches": batches,
             "bf_max_nodes": BFMAX,
         }
@@ -845,19 +1316,35 @@ def run(tier: str) -> CheckResult:
 
 
 def replay(d):
-    """Re-run one stored counterexample against the repository and let TLC judge it again."""
+    """Re-run one stored counterexample (the whole life of the object up to the failing call:
+    constructor, mutator calls and earlier queries) against the repository and let TLC judge it."""
     det = d["detail"]
-    if "build" not in det:
+    if "object_script" not in det:
         return 0
-    signal.signal(signal.SIGALRM, _alarm)
-    b = det["build"]
+    if det["method"] in ("construct", "add_node", "add_child", "remove"):
+        print("a constructor / mutator call raised:", det["call"], "->", det["got"], "(not replayed on its own)")
+        return 0
+    signal.signal(signal.SIGPROF, _alarm)
     kind = {v: k for k, v in KIND_CLASS.items()}[det["class"]]
+    sess = {"n": det["n"], "init": det["session"]["init"],
+            "muts": [tuple(m) for m in det["session"]["mutator_calls"]]}
+    script, k = [], 0
+    for h in det["object_script"]:
+        if h[0] == "m":
+            script.append(("m", k))
+            k += 1
+        elif h[1] not in ("construct", "add_node", "add_child", "remove"):
+            script.append(("c", (kind, det.get("node_runtimes", []), h[1], h[2], h[3], h[4])))
     rec = Recorder()
-    rec.perform(0, b, [(kind, det.get("node_runtimes", []), det["method"], det["args"], det["weights"])])
+    rec.perform(0, sess, script)
+    if not rec.calls:
+        print("nothing recorded")
+        return 0
     with Scratch() as scratch:
-        fails, _, _ = judge_batch(
-            scratch, "replay", [{"g": 0, "n": b["n"], "edges": b["edges"], "calls": rec.calls}], 1
-        )
-    print("recorded now:", rec.calls[0], "got:", rec.meta[1][-1])
-    print("TLC verdict:", [f[1:] for f in fails] if fails else "accepted")
-    return 1 if fails else 0
+        fails, _, _ = judge_batch(scratch, "replay", [_entry(0, sess, rec.calls)], len(rec.calls))
+    last = rec.calls[-1]
+    print("recorded now:", last, "got:", rec.meta[last["id"]][7])
+    mine = [f[1:] for f in fails if f[0] == last["id"]]
+    print("TLC verdict on the call:", mine if mine else "accepted",
+          "| on the earlier calls of the object:", [f[:3] for f in fails if f[0] != last["id"]] or "accepted")
+    return 1 if mine else 0
